@@ -109,11 +109,33 @@ func rulesC19(c *Ctx) {
 		stores := 0
 		// cache stores, lifted to the call sites when they sit in a private store helper without results
 		type cacheStore struct {
-			f    *ssa.Function
-			b    *ssa.BasicBlock
-			in   ssa.Instruction
-			val  ssa.Value
-			what string
+			f      *ssa.Function
+			b      *ssa.BasicBlock
+			in     ssa.Instruction
+			val    ssa.Value
+			what   string
+			cached bool      // the store itself is on the isCached edge of the helper it sits in
+			alt    ssa.Value // the helper call's own result, when the helper hands the stored value back
+		}
+		onCachedEdge := func(g *ssa.Function, b *ssa.BasicBlock) bool {
+			for k := range factsFor(g).At(b) {
+				if nm, _ := fieldLoadName(k.v); nm == "isCached" && k.pol {
+					return true
+				}
+			}
+			return false
+		}
+		// mapParamIsCache: map parameter p of a private helper always receives a cache-map field
+		mapParamCache := func(f *ssa.Function, p *ssa.Parameter) string {
+			name := ""
+			for _, a := range liftSites(p) {
+				nm, base := fieldLoadName(a)
+				if !isCacheMap(nm) || base == nil {
+					return ""
+				}
+				name = nm
+			}
+			return name
 		}
 		var cstores []cacheStore
 		for _, f := range fns {
@@ -124,6 +146,38 @@ func rulesC19(c *Ctx) {
 				case *ssa.MapUpdate:
 					if nm, base := fieldLoadName(x.Map); isCacheMap(nm) && base != nil && !freshBase(base) {
 						val, what = x.Value, nm
+					}
+					// the cache map is handed to a private store helper as a parameter
+					if mp, isP := x.Map.(*ssa.Parameter); isP && f.Object() != nil && !f.Object().Exported() {
+						if nm := mapParamCache(f, mp); nm != "" {
+							vp, isVP := resolve(x.Value).(*ssa.Parameter)
+							vi := -1
+							for i, q := range f.Params {
+								if isVP && q == vp {
+									vi = i
+								}
+							}
+							handsBack := vi >= 0
+							for _, r := range returnsOf(f) {
+								if len(r.Results) == 0 || resolve(r.Results[0]) != ssa.Value(vp) {
+									handsBack = false
+								}
+							}
+							if vi >= 0 {
+								for _, g := range fns {
+									for _, ci := range Calls(g) {
+										if ci.Static == f && ci.Kind == "call" && vi < len(ci.Common.Args) {
+											cs := cacheStore{g, ci.Block, ci.Instr, ci.Common.Args[vi], nm, onCachedEdge(f, b), nil}
+											if handsBack {
+												cs.alt = ci.Value()
+											}
+											cstores = append(cstores, cs)
+										}
+									}
+								}
+								return
+							}
+						}
 					}
 				case *ssa.Store:
 					if fa, ok := x.Addr.(*ssa.FieldAddr); ok && strings.HasSuffix(fieldName(fa), ".Provider.baseTemplate") && !freshBase(fa.X) {
@@ -144,7 +198,7 @@ func rulesC19(c *Ctx) {
 					for _, g := range fns {
 						for _, ci := range Calls(g) {
 							if ci.Static == f && ci.Kind == "call" && pi >= 0 && pi < len(ci.Common.Args) {
-								cstores = append(cstores, cacheStore{g, ci.Block, ci.Instr, ci.Common.Args[pi], what})
+								cstores = append(cstores, cacheStore{g, ci.Block, ci.Instr, ci.Common.Args[pi], what, onCachedEdge(f, b), nil})
 								lifted = true
 							}
 						}
@@ -153,7 +207,7 @@ func rulesC19(c *Ctx) {
 						return
 					}
 				}
-				cstores = append(cstores, cacheStore{f, b, in, val, what})
+				cstores = append(cstores, cacheStore{f, b, in, val, what, false, nil})
 			})
 		}
 		for _, cs := range cstores {
@@ -162,7 +216,7 @@ func rulesC19(c *Ctx) {
 			func() {
 				stores++
 				con := fmt.Sprintf("store into %s cache in %s", what, fname(f))
-				cached := false
+				cached := cs.cached
 				for k := range facts.At(b) {
 					if nm, _ := fieldLoadName(k.v); nm == "isCached" && k.pol {
 						cached = true
@@ -180,7 +234,7 @@ func rulesC19(c *Ctx) {
 						okR, why = false, "the cache is filled in a function without results; cannot relate the cached value to what is returned"
 						continue
 					}
-					if !sameVarOrValue(r.Results[0], val, in, r) {
+					if !sameVarOrValue(r.Results[0], val, in, r) && !(cs.alt != nil && resolve(r.Results[0]) == cs.alt) {
 						okR, why = false, "a return after the store yields a different template than the cached one"
 					}
 					if !isNilConst(resolve(r.Results[len(r.Results)-1])) {
@@ -205,7 +259,10 @@ func rulesC19(c *Ctx) {
 					return
 				}
 				if nm, base := fieldLoadName(mu.Map); !isCacheMap(nm) || base == nil || freshBase(base) {
-					return
+					mp, isP := mu.Map.(*ssa.Parameter)
+					if !isP || mapParamCache(f, mp) == "" {
+						return
+					}
 				}
 				// the key as its builder wrote it (a parameter is followed to the call sites)
 				var keyVals []ssa.Value
